@@ -426,7 +426,7 @@ func (c *apiC) Exec(op string) string {
 	return "bad-op"
 }
 
-var apiNames = []string{"a", "b-0", "b-1", "c", "b", "nosuch", "a b", "é", "%41", "a;x", "..", "-1"}
+var apiNames = []string{"a", "b-0", "b-1", "c", "b", "nosuch", "a b", "é", "%41", "a;x", "..", "-1", "a+b,c", "x+y;z", "+"}
 var apiNums = []string{"0", "1", "2", "3", "5", "10", "-1", "+2", "x", "1.5", "", " 1", "99999999999999999999", "0x10", "1e3", "007"}
 
 func (c *apiC) Gen(r *rand.Rand, tier string, emit func(string)) {
